@@ -1,11 +1,12 @@
 package rueidisaside
 
+//verif:use luasym
+
 import (
 	"context"
 	"errors"
 	"strings"
 	"time"
-	"unsafe"
 
 	"github.com/redis/rueidis"
 	"github.com/redis/rueidis/internal/cmds"
@@ -15,24 +16,8 @@ import (
 // stored value, runs the loader only while holding the lock, and cleans the lock up after a
 // failed load or a dead holder. The Redis side is a stub whose reply to each step is a decision.
 
-type verifRawMsg struct {
-	attrs   *rueidis.RedisMessage
-	bytes   *byte
-	array   *rueidis.RedisMessage
-	integer int64
-	typ     byte
-	ttl     [7]byte
-}
-
-func verifStr(typ byte, s string) rueidis.RedisMessage {
-	m := verifRawMsg{typ: typ, bytes: unsafe.StringData(s), integer: int64(len(s))}
-	return *(*rueidis.RedisMessage)(unsafe.Pointer(&m))
-}
-
-func verifNil() rueidis.RedisMessage {
-	m := verifRawMsg{typ: '_'}
-	return *(*rueidis.RedisMessage)(unsafe.Pointer(&m))
-}
+func verifStr(typ byte, s string) rueidis.RedisMessage { return verifMsgStr(typ, s) }
+func verifNil() rueidis.RedisMessage                  { return verifMsgNil() }
 
 var verifErrIO = errors.New("verif: io error")
 
